@@ -13,7 +13,9 @@ Require Import Cherab.Common.Qx.
 Require Import Cherab.Model.C16_Instruments.
 Require Import Cherab.Proofs.C16_Base Cherab.Proofs.C16_Spectrometer Cherab.Proofs.C16_CzernyTurner
                Cherab.Proofs.C16_Polychromator Cherab.Proofs.C16_Range Cherab.Proofs.C16_Calibrate
-               Cherab.Proofs.C16_Round Cherab.Proofs.C16_Filters Cherab.Model.C16_Source Cherab.Proofs.C16_Source.
+               Cherab.Proofs.C16_Round Cherab.Proofs.C16_Filters Cherab.Model.C16_Source Cherab.Proofs.C16_Source
+               Cherab.Proofs.C16_Integral Cherab.Proofs.C16_Order Cherab.Proofs.C16_Resolution Cherab.Proofs.C16_RoundProper.
+From Coq Require Import Permutation Morphisms.
 From Coq Require Import String.
 Open Scope Q_scope.
 
@@ -251,6 +253,111 @@ Theorem C16_setters_have_tabled_effects :
   (forall s, ct_base (ct_update_w2p rnd resolution s) = eff_base (is_some (ct_acc s)) EUpdW2p (ct_base s)).
 Proof. exact setters_have_tabled_effects. Qed.
 Print Assumptions C16_setters_have_tabled_effects.
+
+(* ---- second deepening round ---- *)
+
+(* a spectrum whose samples all equal c integrates to c (b - a) over ANY interval, for any strictly increasing bin
+   centres: the model of Spectrum.integrate is the integral of the interpolant also in the extrapolated regions *)
+Theorem C16_spectrum_integral_constant :
+  forall c xs a b, xs <> [] -> increasing xs = true -> pl_integral xs (const_like c xs) a b == c * (b - a).
+Proof. exact pl_integral_const. Qed.
+Print Assumptions C16_spectrum_integral_constant.
+
+(* calibrate with the spectrum's integral, hypothesis-free: value_i * width_i is the spectrum's integral over pixel i,
+   and the sum over the pixels of a row is the integral over their union -- any layout, any binning, any samples *)
+Theorem C16_calibrate_conserves_spectrum :
+  forall xs ys w, increasing w = true ->
+  (forall i, (S i < List.length w)%nat ->
+     nth i (calibrate_arr (pl_integral xs ys) w) 0 * (nth (S i) w 0 - nth i w 0)
+     == pl_integral xs ys (nth i w 0) (nth (S i) w 0)) /\
+  ((2 <= List.length w)%nat ->
+     dot (calibrate_arr (pl_integral xs ys) w) (widths w) == pl_integral xs ys (hd 0 w) (last w 0)).
+Proof. exact calibrate_conserves_spectrum. Qed.
+Print Assumptions C16_calibrate_conserves_spectrum.
+
+(* a flat spectrum is calibrated to the flat value in every pixel of every layout *)
+Theorem C16_calibrate_flat :
+  forall c xs w, xs <> [] -> increasing xs = true -> increasing w = true ->
+  forall i, (S i < List.length w)%nat -> nth i (calibrate_arr (pl_integral xs (const_like c xs)) w) 0 == c.
+Proof. exact calibrate_flat. Qed.
+Print Assumptions C16_calibrate_flat.
+
+(* ORDER: range and bin count do not depend on the order in which the accommodated spectra / the filters are listed
+   (in the first rounds: checked on the implementation only).  [rnd] only has to respect equality of rationals;
+   exact arithmetic does (exact_proper) and so does round53 (C16_round53_respects_equality below), which gives the
+   hypothesis-free statements for the model in double arithmetic (C16_order_independent_double). *)
+Theorem C16_spectrometer_order_independent :
+  forall (rnd : Q -> Q), Proper (Qeq ==> Qeq) rnd ->
+  forall mbpp w2p w2p', Permutation w2p w2p' -> derived_eq (sp_derive rnd mbpp w2p) (sp_derive rnd mbpp w2p').
+Proof. exact sp_derive_perm. Qed.
+Print Assumptions C16_spectrometer_order_independent.
+
+Theorem C16_polychromator_order_independent :
+  forall (rnd : Q -> Q), Proper (Qeq ==> Qeq) rnd ->
+  forall mbpw fs fs', Permutation fs fs' -> derived_eq (pc_derive rnd mbpw fs) (pc_derive rnd mbpw fs').
+Proof. exact pc_derive_perm. Qed.
+Print Assumptions C16_polychromator_order_independent.
+
+(* round53 picks the unique exponent with a 53-bit significand, so it does not depend on how the rational is written *)
+Theorem C16_round53_respects_equality : Proper (Qeq ==> Qeq) round53.
+Proof. exact round53_proper. Qed.
+Print Assumptions C16_round53_respects_equality.
+
+Theorem C16_order_independent_double :
+  (forall mbpp w2p w2p', Permutation w2p w2p' -> derived_eq (sp_derive round53 mbpp w2p) (sp_derive round53 mbpp w2p')) /\
+  (forall mbpw fs fs', Permutation fs fs' -> derived_eq (pc_derive round53 mbpw fs) (pc_derive round53 mbpw fs')).
+Proof. split; [exact (sp_derive_perm round53 round53_proper)|exact (pc_derive_perm round53 round53_proper)]. Qed.
+Print Assumptions C16_order_independent_double.
+
+(* CONSTRUCTORS: each model constructor is the fold of the statement list that the translator reads from the current
+   source's __init__ (Model/C16_Source.v model_ctors, kernel-tied to the source by Gen/C16/Source.v): the link
+   constructor <-> source is a lemma now, not an inspection.  Czerny-Turner's list has no ESuper: _pipeline_classes
+   stays Missing. *)
+Theorem C16_constructors_follow_source_tables :
+  forall (rnd : Q -> Q) (resolution : ct_key -> Q -> Q) (deg2rad : Q -> Q),
+  (forall p, sp_construct rnd p = fold_left (sp_exec rnd p) (ctor_of "Spectrometer" model_ctors)
+                                    (Ok {| sp_mbpp := 0; sp_w2p := []; sp_wl := []; sp_base := base0 Missing |})) /\
+  (forall p, ct_construct rnd resolution deg2rad p
+             = fold_left (ct_exec rnd resolution deg2rad p) (ctor_of "CzernyTurnerSpectrometer" model_ctors) (Ok ct_blank)) /\
+  (forall p, pc_construct p = fold_left (pc_exec p) (ctor_of "Polychromator" model_ctors)
+                                (Ok {| pc_mbpw := 0; pc_filters := []; pc_base := base0 Missing |})).
+Proof.
+  intros rnd resolution deg2rad. split; [exact (sp_construct_follows_table rnd)|].
+  split; [exact (ct_construct_follows_table rnd resolution deg2rad)|exact pc_construct_follows_table].
+Qed.
+Print Assumptions C16_constructors_follow_source_tables.
+
+(* RESOLUTION as a formula (exact arithmetic; sqrt any function with sqrt y >= 0, sqrt y ^2 = y; cos and tan of the
+   angle any two numbers with cos > 0, tan >= 0, cos^2 (1 + tan^2) = 1): positive as long as m g w / 2 < cos^2 --
+   which with C16_czerny_turner_pixels_increasing gives valid pixel arrays -- and decreasing in the wavelength, so the
+   narrowest pixel of an accommodated spectrum is its last one *)
+Theorem C16_resolution_positive :
+  forall (sqrt : Q -> Q), (forall y, 0 <= y -> 0 <= sqrt y /\ sqrt y * sqrt y == y) ->
+  forall cosa tana, 0 < cosa -> 0 <= tana -> cosa * cosa * (1 + tana * tana) == 1 ->
+  forall k, (0 < k_order k)%Z -> 0 < k_grating k -> 0 < k_focal k -> 0 < k_spacing k ->
+  forall w, 0 <= res_p k w -> res_p k w < cosa * cosa -> 0 < resolution_of sqrt cosa tana k w.
+Proof. intros. eapply resolution_pos; eassumption. Qed.
+Print Assumptions C16_resolution_positive.
+
+Theorem C16_resolution_decreasing :
+  forall (sqrt : Q -> Q), (forall y, 0 <= y -> 0 <= sqrt y /\ sqrt y * sqrt y == y) ->
+  forall cosa tana, 0 < cosa -> 0 <= tana -> cosa * cosa * (1 + tana * tana) == 1 ->
+  forall k, (0 < k_order k)%Z -> 0 < k_grating k -> 0 < k_focal k -> 0 < k_spacing k ->
+  forall w1 w2, 0 <= w1 -> w1 <= w2 -> res_p k w2 <= cosa * cosa ->
+  resolution_of sqrt cosa tana k w2 <= resolution_of sqrt cosa tana k w1.
+Proof. intros. eapply resolution_decreasing; eassumption. Qed.
+Print Assumptions C16_resolution_decreasing.
+
+(* the certificate the correspondence evaluates for every (wavelength, resolution) pair of the oracle table (there up
+   to relative 2^-40): it characterises the formula's value *)
+Theorem C16_resolution_certificate :
+  forall (sqrt : Q -> Q), (forall y, 0 <= y -> 0 <= sqrt y /\ sqrt y * sqrt y == y) ->
+  forall tana k, (0 < k_order k)%Z -> 0 < k_grating k -> 0 < k_focal k -> 0 < k_spacing k ->
+  forall cosa w r,
+  let p := res_p k w in let S := r * res_den k / k_spacing k + p * tana in
+  0 <= cosa * cosa - p * p -> 0 <= S -> S * S == cosa * cosa - p * p -> r == resolution_of sqrt cosa tana k w.
+Proof. intros. eapply resolution_certificate_exact; eassumption. Qed.
+Print Assumptions C16_resolution_certificate.
 
 (* the hypotheses are satisfiable: the example of the class docstring (exact arithmetic gives the
    2070 bins the implementation reports) *)
